@@ -88,6 +88,14 @@ Qed.
 Lemma after_batch_text : forall dn, f_text (after_batch dn) = [].
 Proof. intros []; reflexivity. Qed.
 
+Lemma loop_step_px : forall w s, px (loop_step w s) = px s.
+Proof.
+  intros w s. unfold loop_step. destruct (lclosed (en s)); [reflexivity|].
+  destruct (loopq (en s)); [reflexivity|].
+  destruct (get_app_or_none _ _ && _); [|reflexivity].
+  destruct (submit _ _ _ _ _); reflexivity.
+Qed.
+
 Lemma ptext_step : forall s l, raw_label l = true -> ptext (px (step s l)) = ptext (px s) ++ wdata l.
 Proof.
   intros s l R. destruct l; try discriminate R; cbn [step wdata px]; rewrite ?app_nil_r;
@@ -105,6 +113,7 @@ Proof.
     + destruct (Nat.eqb k (lid (en s)) && negb (lclosed (en s))); cbn [px];
         (eapply ptext_handover; [eassumption|apply after_batch_text]).
     + cbn [px]. eapply ptext_handover; [eassumption|apply after_batch_text].
+  - rewrite loop_step_px. reflexivity.
 Qed.
 
 Lemma stream_cons : forall l ls, stream (l :: ls) = wdata l ++ stream ls.
@@ -124,7 +133,7 @@ Qed.
    sys.stdout is the proxy and nothing afterwards *)
 Lemma patched_step : forall s l, l <> LRestore -> patched (en (step s l)) = patched (en s).
 Proof.
-  intros s l N. destruct l; try congruence; cbn [step];
+  intros s l N. destruct l; try congruence; cbn [step]; unfold loop_step;
     repeat (match goal with
       | |- context [if ?b then _ else _] => destruct b eqn:?
       | |- context [match ?x with _ => _ end] => destruct x eqn:?
